@@ -114,6 +114,11 @@ ILit(o, els) ==
             ILit([o EXCEPT !.kind = KindFor(o.kind, e), !.dense = Append(o.dense, e), !.len = o.len + 1], Tail(els))
        ELSE ILit(I!DefineIdx(o, o.len, I!PFull(e)).o, Tail(els))                              \* create_data_property_or_throw
 ImplLiteral(els) == ILit(IEmpty(TRUE, 0), els)
+\* new Array(e1, e2, ...): override_indexed_properties -> DenseElement whatever the values are;
+\* new Array(n): array_create(0) and a plain length store
+ImplCreate(l) == IF l.c = "lit" THEN ImplLiteral(l.els)
+                 ELSE IF l.c = "new" THEN [IEmpty(TRUE, Len(l.els)) EXCEPT !.kind = "EL", !.dense = l.els]
+                 ELSE IEmpty(TRUE, l.n)
 
 ----------------------------------------------------------------------------
 (* Abstraction to the reference model *)
@@ -139,11 +144,14 @@ Step(op) ==
 
 Record(s) == [op |-> s.op, ret |-> s.ret, d |-> s.d, kind |-> s.kind, lret |-> s.lret, ld |-> s.ld]
 
+InitRecord(l, kind) ==
+  LET d == Ref!A!Dump(Ref!A!Create(l)) IN
+  [op |-> [k |-> "lit", c |-> l.c, els |-> l.els, n |-> l.n], ret |-> <<"none">>, d |-> d, kind |-> kind,
+   lret |-> <<"none">>, ld |-> d]
 Init == \E n \in 1..Len(Literals) :
-          /\ io = ImplLiteral(Literals[n])
-          /\ refok = (Abs(io) = Ref!A!Literal(Literals[n]))
-          /\ hist = <<[op |-> [k |-> "lit", els |-> Literals[n]], ret |-> <<"none">>, d |-> Ref!A!Dump(Ref!A!Literal(Literals[n])),
-                       kind |-> io.kind, lret |-> <<"none">>, ld |-> Ref!A!Dump(Ref!A!Literal(Literals[n]))]>>
+          /\ io = ImplCreate(Literals[n])
+          /\ refok = (Abs(io) = Ref!A!Create(Literals[n]))
+          /\ hist = <<InitRecord(Literals[n], io.kind)>>
 
 AllOps == ExploreOps \o ProbeOps
 
